@@ -19,14 +19,19 @@ open S3V S3V.FsPath
 
 def encD (b : Bytes) : Bytes := S3V.Crypto.base64UrlNoPadEncode b
 
-/-- replace the text `{OUTER}` -/
-partial def substOuter (outerB : Bytes) (b : Bytes) : Bytes :=
-  let pat := sb "{OUTER}"
+/-- replace every occurrence of `pat` by `by_` -/
+partial def substAll (pat by_ : Bytes) (b : Bytes) : Bytes :=
   let rec go (l : Bytes) (acc : Bytes) : Bytes :=
     match l with
     | [] => acc.reverse
-    | c :: cs => if pat.isPrefixOf l then go (l.drop pat.length) (outerB.reverse ++ acc) else go cs (c :: acc)
+    | c :: cs => if pat.isPrefixOf l then go (l.drop pat.length) (by_.reverse ++ acc) else go cs (c :: acc)
   go b []
+
+/-- placeholders of the case line: `{ROOTPCT}` (root with `/` as `%2F`), `{ROOT}` (= `{OUTER}/root`), `{OUTER}` -/
+def substOuter (outerB : Bytes) (b : Bytes) : Bytes :=
+  let root := outerB ++ sb "/root"
+  let rootPct := root.flatMap fun c => if c = 47 then sb "%2F" else [c]
+  substAll (sb "{OUTER}") outerB (substAll (sb "{ROOT}") root (substAll (sb "{ROOTPCT}") rootPct b))
 
 def textField (outerB : Bytes) (s : String) : Option Bytes :=
   (optHexDecode s).map fun o => substOuter outerB (o.getD [])
